@@ -29,6 +29,8 @@ class ConcreteProvider:
 
     # ---- inputs
     def _get(self, name, gen):
+        if name in self.inputs:
+            return self.inputs[name]
         if name in self.given:
             v = self.given[name]
         else:
